@@ -1,7 +1,8 @@
 // C04 loads / stores / gather / scatter / broadcast / element-list constructor / get.
 // Memory monitor: a 4-page arena whose first and last page are PROT_NONE.  Buffers are placed
 // flush against either guard page and at every byte offset of a window straddling the inner
-// page boundary; after each store every byte outside [p, p+size) must still hold the canary.
+// page boundary (every offset that is a valid pointer to the element type); after each store every byte
+// outside [p, p+size) must still hold the canary.
 // The same cases are repeated on exact-size heap blocks so that ASan / valgrind red zones see
 // intra-page over-reads the guard pages cannot.
 #include "../common/vcheck.hpp"
@@ -97,11 +98,13 @@ static std::vector<Place> placements(size_t bytes, size_t align, std::vector<voi
         if (((uintptr_t)p % align) == 0 && p >= AR.lo() && p + bytes <= AR.hi())
             v.push_back({ p, "straddles_page_boundary", false });
     }
-    if (align <= 1)
+    if (align <= 8)
     {
-        for (size_t off = 1; off < 8; ++off)
+        for (size_t k = 1; k < 8; ++k)
         {
-            v.push_back({ AR.hi() - bytes - off, "near_upper_guard", false });
+            size_t off = k * align;
+            if (((uintptr_t)(AR.hi() - bytes - off) % align) == 0)
+                v.push_back({ AR.hi() - bytes - off, "near_upper_guard", false });
             v.push_back({ AR.lo() + off, "near_lower_guard", false });
         }
     }
@@ -151,7 +154,8 @@ static void plain(Rng& rng)
     const size_t AL = ARCH::alignment();
     for (int aligned = 0; aligned < 2; ++aligned)
     {
-        auto pls = placements(BY, aligned ? AL : 1, heap);
+        // "unaligned" means not register-aligned; the pointer must still be a valid T* (multiple of alignof(T))
+        auto pls = placements(BY, aligned ? AL : alignof(T), heap);
         for (size_t pi = 0; pi < pls.size(); ++pi)
         {
             const Place& pl = pls[pi];
@@ -243,7 +247,7 @@ static void converting(Rng& rng)
     std::vector<void*> heap;
     for (int aligned = 0; aligned < 2; ++aligned)
     {
-        auto pls = placements(BY, aligned ? ARCH::alignment() : 1, heap);
+        auto pls = placements(BY, aligned ? ARCH::alignment() : alignof(Mem), heap);
         for (const Place& pl : pls)
         {
             for (size_t i = 0; i < N; ++i)
@@ -354,7 +358,7 @@ static void complexes(Rng& rng, const char* prop)
     std::vector<void*> heap;
     for (int aligned = 0; aligned < 2; ++aligned)
     {
-        auto pls = placements(BY, aligned ? ARCH::alignment() : 1, heap);
+        auto pls = placements(BY, aligned ? ARCH::alignment() : alignof(T), heap);
         for (const Place& pl : pls)
         {
             fill_src(flat, 2 * N, rng, 0);
